@@ -1146,13 +1146,15 @@ class Model:
                             start_mx = ca.MX(start)
                             # If the state already has a non-default start
                             # attribute we check for conflicts.
+                            # Only a numeric MX has a truth value: compare constants by value and
+                            # anything parameter-dependent by its (sign-adjusted) expression string.
                             if (
                                 start_mx.is_constant() != ca.MX(alias_start_mx).is_constant()
                                 or (
-                                    start_mx.is_symbolic()
+                                    not start_mx.is_constant()
                                     and str(start_mx) != str(sign * alias_start_mx)
                                 )
-                                or start != alias_start_mx
+                                or (start_mx.is_constant() and start != alias_start_mx)
                             ):
                                 logger.warning(
                                     "Current start attribute of canonical variable '{}' ({})"
